@@ -87,7 +87,7 @@ META = {
         "engine": "S5-chainsim", "design_ref": "DESIGN.md section 4 C16",
         "technique": "deterministic whole-node simulation with scope invariants on account state and UTXO set after every head change and the validator's verdict on a Qi payment to a Quai-ledger payee; deterministic simulation of transaction execution (creations with salts ground for Qi addresses, transfers and self-destructs aimed out of scope, gas cuts) with creation-scope and state-scope oracles; a finite address-classification table over every construction path",
         "text": "Exploration of the state clauses: no out-of-zone or Qi-ledger account appears in zone state, every UTXO owner is an in-zone Qi address, in seeded histories with conversions, Qi coinbases and reorgs.",
-        "note": "Constructor/decoder agreement is decided on a boundary table only (a pure-function claim over 2^160 addresses is outside this technique); Address.UnmarshalJSON / DecodeRLP classify against a fixed location and are not in the table.",
+        "note": "Constructor/decoder agreement is decided on a boundary table only (a pure-function claim over 2^160 addresses is outside this technique); the location-less decoders (UnmarshalJSON / UnmarshalText / DecodeRLP) classify against location 0-0: open known finding.",
     },
     "C01": {
         "engine": "S5-chainsim", "design_ref": "DESIGN.md section 4 C01",
